@@ -623,11 +623,31 @@ class McmcSim:
             for ad in adaptors:
                 n = type(ad).__name__
                 if n == "AdaptiveStepSize":
-                    c = ad._call_counter
-                    active = ad._start <= c <= ad._end and (not ad._acceptance_rate or c >= 10)
-                    if active:
-                        stat = (ad._accepted / c) if ad._acceptance_rate else acc
-                        self.direction(op, stat, ad.target_acceptance_probability, bold_before, bold_after, "AdaptiveStepSize")
+                    # the monitor keeps its own counts: calls and accepted moves since the run
+                    # began and since the adaptation window opened
+                    cnt = self.accept_counts.setdefault(id(ad), {"calls": 0, "acc": 0, "wcalls": 0, "wacc": 0})
+                    cnt["calls"] += 1
+                    cnt["acc"] += 1 if accepted_arg else 0
+                    start, end = ad._start, ad._end
+                    in_window = start <= cnt["calls"] <= end
+                    if in_window:
+                        cnt["wcalls"] += 1
+                        cnt["wacc"] += 1 if accepted_arg else 0
+                    rate_mode = bool(ad._acceptance_rate)
+                    target_a = ad.target_acceptance_probability
+                    if not in_window:
+                        if bold_after != bold_before and len([a2 for a2 in adaptors if type(a2).__name__ != "MassMatrixAdaptor"]) == 1:
+                            self.violate("tuning_off", op, "step size changed %r -> %r outside the adaptation window [%s, %s] (call %d)" % (bold_before, bold_after, start, end, cnt["calls"]), {"adaptor": "AdaptiveStepSize"})
+                    elif not rate_mode:
+                        self.direction(op, acc, target_a, bold_before, bold_after, "AdaptiveStepSize")
+                    else:
+                        # which "acceptance" the rate mode means is not pinned down by the property: only
+                        # judge when the move's probability and both running rates agree about the side
+                        stats = [acc, cnt["acc"] / cnt["calls"], cnt["wacc"] / max(cnt["wcalls"], 1)]
+                        if all(x > target_a for x in stats) and bold_after < bold_before * (1 - 1e-12):
+                            self.violate("tuning_direction", op, "AdaptiveStepSize(rate): move probability %.3f, rate since start %.3f and since the window opened %.3f are all above target %.3f but the step size shrank %.6g -> %.6g" % (stats[0], stats[1], stats[2], target_a, bold_before, bold_after), {"adaptor": "AdaptiveStepSize-rate"})
+                        elif all(x < target_a for x in stats) and bold_after > bold_before * (1 + 1e-12):
+                            self.violate("tuning_direction", op, "AdaptiveStepSize(rate): move probability %.3f, rate since start %.3f and since the window opened %.3f are all below target %.3f but the step size grew %.6g -> %.6g" % (stats[0], stats[1], stats[2], target_a, bold_before, bold_after), {"adaptor": "AdaptiveStepSize-rate"})
                 elif n == "DualAveragingStepSize":
                     self.dual_averaging_reference(op, ad, acc)
         # ---- bookkeeping
@@ -858,7 +878,8 @@ def generate(seed, index, tier):
         recipe = {"kind": "toy_mcmc", "operators": ops, "iterations": 1, "freq": 1000, "logger": k.bernoulli(0.6), "log_every": k.choice([1, 1, 2, 5]),
                   "window": k.choice([None, 3, 10]), "disable_adaptation": k.bernoulli(0.12), "tune_scale": k.loguniform(0.03, 30.0) if k.bernoulli(0.6) else None,
                   "target_acc": k.choice([None, None, 0.1, 0.5, 0.9]), "mass_freq": k.choice([2, 4]), "mass_swap": k.choice([0, 0, 5]), "use_acceptance_rate": k.bernoulli(0.2),
-                  "leap_steps": k.randint(1, 5), "dim": k.choice([1, 2, 3, 5]), "transformed_op": k.bernoulli(0.1)}
+                  "leap_steps": k.randint(1, 5), "dim": k.choice([1, 2, 3, 5]), "transformed_op": k.bernoulli(0.1),
+                  "adapt_start": k.choice([None, None, 5, 20]), "adapt_end": k.choice([None, None, None, 40])}
         if k.bernoulli(0.25):
             recipe["faulty"] = {"watch": k.choice(["x", "z"]), "index": 0, "lo": k.uniform(-2.0, -0.2), "hi": k.uniform(0.8, 3.0), "value": k.choice(["-inf", "-inf", "nan", "+inf"])}
         transitions = k.randint(20, 120)
